@@ -10,25 +10,38 @@ from lib import c09fmt, c09report as rep, c09run, configs, framework as fw, runn
 META = {
     'props': 'Props/C09.v',
     'claimed': True,
-    'level_text': ('Proof (partial): for every rational value (hence every finite double), width and precision the modelled text of a '
-                   "'{:w.pf}' field reads back as the value rounded half-even at the displayed place, within half a unit of that place "
-                   '(3 theorems); for every lifetime, construction-year count, time-steps-per-year stride, row template and series a profile '
-                   'table has exactly one row per year in order, row i labelled i+offset (printed exactly) and reading every series at index '
-                   'i*stride, the cash-flow table has cy+n rows with OPEX 0 in construction years, and a table is missing only on an '
-                   'IndexError (5 theorems); every per-year row template of the CURRENT writer (regenerated from Outputs.py) starts with its '
-                   'year label (1 theorem); the unit clause in a small model of (value, CurrentUnits, PreferredUnits) and the conversion pass: lines labelled from CurrentUnits state the quantity, the full clause is REFUTED for lines labelled from PreferredUnits (holds when no unit was requested) and for value x 100 next to the unscaled unit (holds with a literal %) (6 theorems). 15 theorems, all closed under the global context. Tied to the code: Model/Fmt.v vs CPython on '
-                   'thousands of values incl. decimal ties (fixed, comma, e/E, g, repr, round, int); the writer extracted with ast must match '
+    'level_text': ('Proof (partial): (a) for every rational value (hence every finite double), width and precision the modelled text of a '
+                   "'{:w.pf}' and of a '{:w,.pf}' field reads back as the value rounded half-even at the displayed place, within half a "
+                   'unit of that place (4 theorems); (b) for every lifetime, construction-year count, time-steps-per-year stride, row template '
+                   'and series a profile table has exactly one row per year in order, row i labelled i+offset (printed exactly) and reading '
+                   'every series at index i*stride - also when the cells are expressions over the series (ratios to the first entry, /1E6, '
+                   'percent of heat mined) evaluated by the float model; the cash-flow table has cy+n rows with OPEX 0 in construction years; a '
+                   'table is missing only on an IndexError (7 theorems); every per-year row template of the CURRENT writers (regenerated '
+                   'from the sources) starts with its year label (1 theorem); (c) the float model that computes derived figures from the snapshot '
+                   'quantities: rounding to 53 bits is within half a unit of the last bit for every integer and exponent, x+y, x-y, x*y are the '
+                   'exact result rounded once, printed extremes are elements of the series (5 theorems); (d) the unit clause in a small model '
+                   'of (value, CurrentUnits, PreferredUnits) and the conversion pass: lines labelled from CurrentUnits state the quantity, '
+                   'the full clause is REFUTED for lines labelled from PreferredUnits (holds when no unit was requested) and for value x 100 '
+                   'next to the unscaled unit (holds with a literal %) (6 theorems). 23 theorems, all closed under the global context. '
+                   'Tied to the code: Model/Fmt.v vs CPython on thousands of values incl. decimal ties (fixed, comma, e/E, g, repr, round, '
+                   'int); Model/Float.v vs Python/numpy on thousands of operations and arrays (+ - * /, builtin sum, numpy pairwise '
+                   'sum/average, max/min); the writers extracted with ast (Outputs, OutputsAddOns, OutputsS_DAC_GT, SUTRAOutputs) must match '
                    'the frozen, reviewed label -> quantity/unit/format/condition specification spec/report_spec.json; every line and table '
-                   'cell of every generated report (all end-use x plant x economic-model cells, lifetimes 1..100, 1..14 construction years, '
-                   'output-unit requests) must equal the specification evaluated on the Model snapshot and formatted by the Coq model. '
-                   'Unit clause (label == CurrentUnits at print time of the parameter shown; value x 100 only with %) is an oracle on the '
-                   'same runs, not a theorem; it is REFUTED on the pinned tree for two input classes recorded as known findings.'),
-    'level_note': ('Trusted: Coq kernel + vm_compute; the Python harness (snapshot observer, the evaluator of specification expressions on '
-                   'the snapshot - float arithmetic such as np.average, x*100, x/1E6 is executed by numpy/Python, not by Coq -, the ast '
-                   'generator); the frozen specification is a reviewed copy of the pinned writer, so a figure that was already wrong when '
-                   'the specification was reviewed is only caught by the unit/percent oracles and the review notes. Not claimed: '
-                   'OutputsRich/HTML, the SUTRA writer, date/time lines, hard-coded unit texts in table headers, figures derived from several '
-                   'quantities (only checked for mixed units). The AddOns and S-DAC-GT writers are covered the same way as the main writer.'),
+                   'cell of every generated report must equal the specification evaluated on the Model snapshot: leaves are snapshot values, '
+                   'sums / ratios / percentages / averages / extremes are computed by the Coq float model, the text by the Coq formatting '
+                   'model. Runs: shipped examples, every end-use x plant x economic-model cell, configurations targeted at every guard '
+                   'conjunction of the specification (the evidence lists runs per specification line and the lines no run can reach), '
+                   'lifetimes 2..100, 1..14 construction years, output-unit requests. Unit clause (label == CurrentUnits at print time of '
+                   'the parameter shown; value x 100 only with %; converted columns need their unit in the header) is an oracle on the same '
+                   'runs, not a theorem; it is REFUTED on the pinned tree for the input classes recorded as known findings.'),
+    'level_note': ('Trusted: Coq kernel + vm_compute; the Python harness (snapshot observer, the evaluator of the LEAVES and guards of the '
+                   'specification on the snapshot, the translator of printed expressions into terms of the float model, the ast generator); '
+                   'the frozen specification is a reviewed copy of the pinned writers, so a figure that was already wrong when the '
+                   'specification was reviewed is only caught by the unit / percent / header oracles and the review notes. Figures outside '
+                   'the float model (nan, inf, -0.0, division by zero, expressions the translator does not cover) fall back to the value the '
+                   'harness computed with numpy (counted in the evidence). Not claimed: OutputsRich/HTML, date/time lines, the {:e}/{:g} value '
+                   'theorems (those formats are tied to CPython only), division of the float model (tied to Python only), lines behind the '
+                   'external TOUGH2 executable, lifetime 1 (the simulator itself fails with IndexError before any report).'),
     'technique': 'Coq proof about an executable Gallina model + kernel-evaluated correspondence with the implementation',
     'rule': ('(a) doubles drawn from one PRNG: exact binary ties at a decimal place and their neighbours, carries near powers of ten, '
              'short decimals, raw bit patterns, specials; each formatted by CPython and by the Coq model, compared in Coq; distinct = '
@@ -38,17 +51,20 @@ META = {
              'evaluations = printed figures checked.'),
     'trusted_base': ['Coq 8.16.1 kernel + vm_compute (no native_compute)',
                      'all C09 theorems: Closed under the global context (no axioms)',
-                     'hand-written models coq/Model/Fmt.v, coq/Model/Report.v tied to CPython / Outputs.PrintOutputs by kernel-evaluated '
+                     'hand-written models coq/Model/Fmt.v, coq/Model/Float.v, coq/Model/Report.v tied to CPython / numpy / the report writers by kernel-evaluated '
                      'correspondence (tools/props/C09.py, tools/lib/c09*.py, tools/gen/c09_report.py: unverified Python)',
                      'spec/report_spec.json: frozen reviewed copy of what the pinned writer prints'],
     'modelled': ["CPython float formatting: format(x,'w.pf'), 'w,.pf', 'w.pe', 'w.pE', 'w.pg', repr(float), round(float,n), str(int)",
                  'Outputs.PrintOutputs line layout and the per-year loops (IndexError as None)',
-                 'numpy/Python float arithmetic inside printed expressions (executed, not modelled)', 'pint conversion factors (checked to 1e-9)'],
+                 'binary64 + - * /, Python sum, numpy pairwise sum / average / max / min (Model/Float.v; numpy 1.26 summation order)',
+                 'SUTRAOutputs / OutputsAddOns / OutputsS_DAC_GT .PrintOutputs', 'pint conversion factors (checked to 1e-9)'],
     'assumptions': ['doubles in the normal range (no subnormals) for repr/round', 'the hook snapshot and the print-time snapshot are faithful copies of the Model',
-                    'expressions of the frozen specification are evaluated with the same numpy as the writer, so agree bit for bit'],
+                    'leaves and guards of the frozen specification are read from the snapshot by Python; fallback figures are computed with the same numpy as the writer',
+                    'primitive 63-bit integers are used only as literals of the correspondence shards (Model/FloatLit.v), never in a theorem'],
     'fingerprint': [('src/geophires_x/Outputs.py', 'Outputs.PrintOutputs'), ('src/geophires_x/Outputs.py', 'Outputs._convert_units'),
                     ('src/geophires_x/OutputsAddOns.py', 'OutputsAddOns.PrintOutputs'),
-                    ('src/geophires_x/OutputsS_DAC_GT.py', 'OutputsS_DAC_GT.PrintOutputs')],
+                    ('src/geophires_x/OutputsS_DAC_GT.py', 'OutputsS_DAC_GT.PrintOutputs'),
+                    ('src/geophires_x/SUTRAOutputs.py', 'SUTRAOutputs.PrintOutputs')],
 }
 
 GENERATORS = (gen.g,)
